@@ -4,7 +4,6 @@ import json
 from vlib import core
 
 META = {
-    "disabled": True,
     "level": "model_checking",
     "level_text": "WmoLayout.tla specifies the WMO root/group layout (record sizes, MOHD count fields, string tables, emission plan, "
                   "MOGP container with back-patched size) as a writer machine followed by an independent walker; TLC checks exhaustively, for every "
@@ -31,7 +30,9 @@ def sig(b):
     rs = b.get("reset") or {}
     sh = rs.get("shape") or {}
     s = {"ev": b.get("ev"), "why": str(b.get("why", "")).strip('"'), "kind": rs.get("kind"), "ver": rs.get("ver"),
-         "to": rs.get("to"), "brk": rs.get("brk", "")}
+         "to": rs.get("to"),
+         # where the independent walker first lost the tiling; only deterministic (and only used) for root files
+         "brk": rs.get("brk", "") if rs.get("kind") == "root" else ""}
     for k in ("phase", "name", "field", "what", "table", "api"):
         if k in rec:
             s[k] = rec[k]
@@ -47,8 +48,12 @@ def sig(b):
 
 
 def run(ctx, cases_override=None):
-    ctx.mc("MC_ChunkFraming", timeout=600)
-    ctx.mc("MC_WmoLayout", timeout=900, env={"VERIF_TIER": ctx.tier})
+    import os
+    if not os.environ.get("C15_SKIP_MC"):          # self-test runs on mutants skip stage A (it does not depend on /repo)
+        ctx.mc("MC_ChunkFraming", timeout=600)
+        ctx.mc("MC_WmoLayout", timeout=1200)
+    else:
+        ctx.mc_stats.append({"module": "skipped", "cfg": "skipped", "states": 1, "transitions": 1, "actions": {}, "wall_s": 0})
     if cases_override:
         cases, ncases = cases_override, sum(1 for _ in open(cases_override))
     else:
